@@ -111,11 +111,20 @@ def element(obj, name=None, ns=None, parent_ns=None, declared=None, nil=False, i
     return (_q(ns, name), attrs, kids)
 
 
+def _declaring_ns(cls, fname, fallback):
+    """Namespace of the class that DECLARES the field (an inherited field keeps its own class' namespace)."""
+    for k in cls.__mro__:
+        if fname in k.__dict__.get("__annotations__", {}):
+            ns = _meta(k, "namespace", None)
+            return fallback if ns is None else ns
+    return fallback
+
+
 def _field_elements(obj, f, hints, cls_ns, ida):
     md = f.metadata
     v = getattr(obj, f.name)
     name = md.get("name", f.name)
-    ns = md["namespace"] if "namespace" in md else cls_ns
+    ns = md["namespace"] if "namespace" in md else _declaring_ns(type(obj), f.name, cls_ns)
     ns = ns or None
     nillable = bool(md.get("nillable"))
     tokens = bool(md.get("tokens"))
